@@ -4,6 +4,9 @@
 D="$(cd "$(dirname "$0")/.." && pwd)"
 cd /repo && [ -z "$(git status --porcelain --untracked-files=no)" ] || { echo "/repo is dirty"; exit 9; }
 [ $# -gt 0 ] || set -- "$D"/seeded/*/
+# evidence files are rewritten by every check run: keep the unchanged-tree evidence and put it back at the end
+rm -rf "$D/work/evidence.keep" && cp -r "$D/evidence" "$D/work/evidence.keep"
+trap 'rm -rf "$D/evidence" && mv "$D/work/evidence.keep" "$D/evidence"' EXIT
 for sd in "$@"; do
   sd="${sd%/}"; name="$(basename "$sd")"; prop="${name%%-*}"
   git -C /repo apply "$sd/patch.diff" || { echo "$name: patch does not apply"; continue; }
